@@ -269,6 +269,22 @@ Theorem dead_index_vector_spec : forall (l : list Z) (e : Z),
   (0 <= e < Z.of_nat (length l))%Z /\ nth (Z.to_nat e) l 0%Z <> 0%Z.
 Proof. exact dead_set_of_spelling. Qed.
 
+(* ... and the expression is accepted iff there is one flag per element OR NO FLAG AT ALL: numpy
+   accepts an empty boolean index on a vector of any length and selects nothing, so an empty vector
+   stored as probe.dead_elements after construction means "no dead element", like the all-False
+   vector; flags of any other length raise IndexError.
+   (Model repair: dead_indices used to answer None for the empty vector on a non-empty probe.  The
+   theorems below whose hypothesis was `length dead = length locs` now read
+   `length dead = length locs \/ dead = []`.) *)
+Theorem dead_index_vector_accepted_iff : forall (n : nat) (mask : list bool) (r : list Z),
+  (dead_indices n mask = Some r <-> (length mask = n \/ mask = []) /\ r = mask_positions 0 mask) /\
+  (length mask <> n -> mask <> [] -> dead_indices n mask = None) /\
+  dead_indices n [] = dead_indices n (repeat false n).
+Proof.
+  intros n mask r.
+  exact (conj (dead_indices_spec n mask r) (conj (dead_indices_raises n mask) (dead_indices_empty_is_all_false n))).
+Qed.
+
 (* np.any(v == dead_indices) is the flag of element v (False for anything that is not an element
    index: a comparison does not wrap negative numbers) *)
 Theorem dead_broadcast_is_flag : forall dead e, any_eq (mask_positions 0 dead) e = is_dead dead e.
@@ -278,7 +294,9 @@ Proof. exact any_eq_dead. Qed.
 Example integer_flags_would_be_fancy_indexing :
   init_dead 3 (DeadEach [0; 1; 0]%Z) = Some [false; true; false] /\
   dead_indices 3 [false; true; false] = Some [1%Z] /\
-  fancy_indices 3 [0; 1; 0]%Z = Some [0; 1; 0]%Z.
+  fancy_indices 3 [0; 1; 0]%Z = Some [0; 1; 0]%Z /\
+  (* no flag at all: nothing selected; two flags for three elements: IndexError *)
+  dead_indices 3 [] = Some [] /\ dead_indices 3 [false; true] = None.
 Proof. repeat split. Qed.
 
 Example dead_flags_spellings :
@@ -308,7 +326,7 @@ Qed.
 (* steps I-IV as written with masks, followed by the motion, ARE move_probe of Model/Registration.v
    (so every theorem above about move_probe is about the code as written), for every numeric type *)
 Theorem move_probe_as_written : forall (T : Type) (N : Num T) fit pcs tx rx dead locs ds,
-  length dead = length locs -> length tx = length rx ->
+  length dead = length locs \/ dead = [] -> length tx = length rx ->
   move_probe N fit pcs tx rx dead locs ds = pose_result N pcs locs (fit_pose N fit pcs tx rx dead locs ds).
 Proof. intros T N; exact (move_probe_fit_pose N). Qed.
 
@@ -321,19 +339,32 @@ Proof. intros T N; exact (fit_pose_gate N). Qed.
 (* ... then "at least 2 pulse echo timetraces": exactly when fewer than two timetraces have tx = rx on a
    live element; the distances (their number, sign, values) are not looked at *)
 Theorem too_few_pulse_echo_iff : forall (T : Type) (N : Num T) fit pcs tx rx dead locs ds,
-  length dead = length locs ->
+  length dead = length locs \/ dead = [] ->
   (fit_pose N fit pcs tx rx dead locs ds = inl E_TooFewPulseEcho
    <-> cs_isclose N pcs (Registration.gcs N) = true /\
        (length (filter (fun p => pulse_echo dead (fst p) (snd p)) (combine tx rx)) < 2)%nat).
 Proof. intros T N; exact (fit_pose_too_few N). Qed.
 
 Theorem success_needs : forall (T : Type) (N : Num T) fit pcs tx rx dead locs ds z th,
-  length dead = length locs -> length tx = length rx ->
+  length dead = length locs \/ dead = [] -> length tx = length rx ->
   fit_pose N fit pcs tx rx dead locs ds = inr (z, th) ->
   cs_isclose N pcs (Registration.gcs N) = true /\
   (2 <= length (selected dead tx rx ds))%nat /\ length ds = length tx /\
   forall t, In t (selected dead tx rx ds) -> nltb N (tr_d t) (n0 N) = false.
 Proof. intros T N; exact (fit_pose_ok_needs N). Qed.
+
+(* the flags that were excluded so far: the empty vector is "no dead element" on a probe of any
+   size (every theorem about move_probe applies with dead := []); flags of any other wrong length
+   give IndexError, right after the gate *)
+Theorem empty_or_mismatched_dead_flags : forall (T : Type) (N : Num T) fit pcs tx rx dead locs ds,
+  fit_pose N fit pcs tx rx [] locs ds = fit_pose N fit pcs tx rx (repeat false (length locs)) locs ds /\
+  (length dead <> length locs -> dead <> [] ->
+   fit_pose N fit pcs tx rx dead locs ds =
+   if cs_isclose N pcs (Registration.gcs N) then inl E_Index else inl E_PcsNotGcs).
+Proof.
+  intros T N fit pcs tx rx dead locs ds.
+  exact (conj (fit_pose_empty_dead N fit pcs tx rx locs ds) (fit_pose_dead_mismatch N fit pcs tx rx dead locs ds)).
+Qed.
 
 (* FMC and HMC frames (canonical order; any other order: registration_permutation_invariant): one
    usable pulse-echo timetrace per live element, for every probe size and every dead set *)
@@ -364,6 +395,17 @@ Example fmc_one_alive_raises :
            (map fst (fmc_pairs 3)) (map snd (fmc_pairs 3)) [true; false; true]
            [(0, 0, 0); (1, 0, 0); (2, 0, 0)]%float [] = inl E_TooFewPulseEcho.
 Proof. vm_compute. reflexivity. Qed.
+
+(* the same frame with NO flag at all: three usable pulse-echo timetraces, the function goes on to the
+   next check (the number of distances); with two flags for three elements: IndexError *)
+Example fmc_empty_or_short_dead_flags :
+  fit_pose NumF (fit_line NumF) (Registration.gcs NumF)
+           (map fst (fmc_pairs 3)) (map snd (fmc_pairs 3)) []
+           [(0, 0, 0); (1, 0, 0); (2, 0, 0)]%float [] = inl E_Shape /\
+  fit_pose NumF (fit_line NumF) (Registration.gcs NumF)
+           (map fst (fmc_pairs 3)) (map snd (fmc_pairs 3)) [true; false]
+           [(0, 0, 0); (1, 0, 0); (2, 0, 0)]%float [] = inl E_Index.
+Proof. split; vm_compute; reflexivity. Qed.
 
 (* the gate, exactly: each of the nine numbers of the PCS within 1e-8 (absolute) of the GCS's *)
 Theorem gate_tolerance : forall o i j : vec3 R,
@@ -525,7 +567,7 @@ Proof. split; vm_compute; reflexivity. Qed.
    the CoordinateSystem constructor checks) = the motion of move_probe on the raw coordinates; the
    element normals turn with the probe; nothing raises *)
 Theorem move_on_the_object : forall fit (p : probe (T:=R)) dead tx rx ds,
-  frame_ok (p_pcs p) -> length dead = length (p_locs p) -> length tx = length rx ->
+  frame_ok (p_pcs p) -> length dead = length (p_locs p) \/ dead = [] -> length tx = length rx ->
   move_probe_obj NumR fit p dead tx rx ds =
   match move_probe NumR fit (cs_of (p_pcs p)) tx rx dead (p_locs p) ds with
   | inl e => MvRaised e
@@ -543,7 +585,7 @@ Proof. exact move_probe_obj_R. Qed.
    theorems above. *)
 Theorem frontwall_on_the_objects : forall (A : Type) (mag : A -> R) fit (p : probe (T:=R)) dead
     start step num (rows : list (list A)) tx rx c tmin tmax,
-  (forall a, 0 <= mag a) -> frame_ok (p_pcs p) -> length dead = length (p_locs p) -> length tx = length rx ->
+  (forall a, 0 <= mag a) -> frame_ok (p_pcs p) -> length dead = length (p_locs p) \/ dead = [] -> length tx = length rx ->
   frontwall_obj NumR mag fit p dead start step num rows tx rx c tmin tmax =
   match find_probe_loc NumR fit start step num (map (map mag) rows) tx rx dead (locations_pcs NumR p) c tmin tmax with
   | inl e => FwRaised (reset_probe p) e
@@ -612,7 +654,7 @@ Proof. exact @frontwall_obj_idempotent. Qed.
 Theorem frontwall_registration_recovers_on_objects : forall (A : Type) (mag : A -> R) fit (p : probe (T:=R))
     xs th z0 dead tx rx start step num (rows : list (list A)) (c : R) tmin tmax times,
   is_ls_minimiser fit -> (forall a, 0 <= mag a) ->
-  frame_ok (p_pcs p) -> locations_pcs NumR p = on_axis xs -> length dead = length xs ->
+  frame_ok (p_pcs p) -> locations_pcs NumR p = on_axis xs -> length dead = length xs \/ dead = [] ->
   - (PI / 2) <= th <= PI / 2 ->
   detect_surface NumR (time_samples NumR start step num) (map (map mag) rows) tmin tmax = Some times ->
   length tx = length rx -> length times = length tx ->
@@ -705,7 +747,7 @@ Proof.
   - exact Rabs_pos.
   - exact ex_probe_frame_ok.
   - exact ex_probe_on_axis.
-  - reflexivity.
+  - left. reflexivity.
   - pose proof PI_RGT_0. lra.
   - exact ex_detect.
   - reflexivity.
